@@ -247,6 +247,14 @@ class SquashArms(PassSpec):
             ("prefix.rev", [S("ab"), S("a")]),
             ("multi.between", [S("x"), S("abc"), S("y"), R("0", "9")]),
             ("ci.multi", [CI("ab"), S("abc")]),
+            # pending single-code-point items must be flushed in front of a case-insensitive multi-character literal too
+            # (a campaign-4 mutant deleted that flush() and passed: no schema had a single item before a ^"multi")
+            ("single.before.ci.multi", [S("a"), CI("ab")]),
+            ("range.before.ci.multi", [R("a", "b"), CI("ab"), S("c")]),
+            ("ci.single.before.ci.multi", [CI("a"), CI("ab")]),
+            ("prop.before.ci.multi", [letter, CI("ab")]),
+            ("single.before.multi", [S("a"), S("ab")]),
+            ("range.before.multi", [R("a", "b"), S("ab")]),
             ("ci.after", [S("abc"), CI("ab"), S("a")]),
             ("prop", [S("a"), letter, S("bc"), R("0", "1")]),
             ("singles", [S("a"), S("b"), R("c", "d")]),
